@@ -139,6 +139,7 @@ DESC_FAULTS = {
     "unknown-description-key": "any",
     "unknown-parameter-name": "cond",
     "parameter-fixed-and-dependent": "cond",
+    "parameter-fixed-at-zero-and-dependent": "cond",  # a falsy fixed value (f_gamma=0 is what the predefined models use)
     "parameter-neither": "cond",
     "first-variable-conditional": "first",
     "conditional-on-self": "notfirst",
@@ -388,6 +389,9 @@ def run_pipeline(pipe, faults, run=None):
             if has("parameter-fixed-and-dependent", i):
                 p = next(iter(deps))
                 fixed[p] = d["truth"][p]
+            if has("parameter-fixed-at-zero-and-dependent", i):
+                p = list(deps)[-1]
+                fixed[p] = 0 if i % 2 else 0.0
             if has("parameter-neither", i):
                 deps.pop(next(iter(deps)))
             if has("first-variable-conditional", i):
